@@ -98,15 +98,18 @@ def run(sim, sc):
     if sc.get('pre_map'):
         s = s.map(lambda x: x)
     pool = None
+    s_final = None
     if kind == 'buffer':
-        it = iter(s.buffer(sc['m']))
+        s_final = s.buffer(sc['m'])
+        it = iter(s_final)
         conc = None
     elif kind == 'fifo':
         pool = ThreadPoolExecutor(sc['c'], thread_name_prefix='harness-pool')
         it = fifo_stream(s, lambda x: pool.submit(fn, x), capacity=sc['cap'])
         conc = sc['c']
     elif kind == 'parmap':
-        it = iter(s.parmap(fn, executor='thread', concurrency=sc['c']))
+        s_final = s.parmap(fn, executor='thread', concurrency=sc['c'])
+        it = iter(s_final)
         conc = sc['c']
     else:
         it = iter(s.parmap(proc_fn, executor='process', concurrency=sc['c'], delays=sc['fn_delays']))
@@ -122,6 +125,24 @@ def run(sim, sc):
         if len(got) >= sc['take']:
             break
     it.close()
+    if fn.running and kind in ('parmap',):
+        sim.violation('concurrency:invocations-still-running-after-the-iterator-was-closed', {'running': fn.running})
+    # consume the same Stream object again at once: invocations left over from the abandoned iteration must not add to the new ones
+    if kind in ('parmap', 'buffer') and sc.get('again', True):
+        state['delivered'] = source.pulled  # what the abandoned iteration had pulled is gone; the bound applies afresh
+        it2 = iter(s_final)
+        k = 0
+        for y in it2:
+            k += 1
+            state['delivered'] += 1
+            d = cds[k % len(cds)]
+            if d:
+                time.sleep(d)
+            if k >= min(8, sc['take']):
+                break
+        it2.close()
+        state['delivered'] = source.pulled
+        sim.count('re_iterated')
     if pool is not None:
         pool.shutdown(wait=True, cancel_futures=True)
     r = inv()
